@@ -51,3 +51,41 @@ Definition pobs_eqb (a b : pobs) : bool :=
 
 Definition pcheck (c : pcase) : bool := pobs_eqb (pobs_of (parse_prot (p_key c) (p_text c))) (p_obs c).
 Definition pshow (c : pcase) := pobs_of (parse_prot (p_key c) (p_text c)).
+
+(** part "csa": observation of csa_series_trans_func on the simplified CSA dict *)
+Inductive cobs := CDict (items : csa_dict) | CErr (e : err).
+
+Record ccase := { c_in : csa_dict; c_obs : cobs }.
+
+Fixpoint pvals_eqb (a b : list pval) : bool :=
+  match a, b with
+  | [], [] => true
+  | x :: a', y :: b' => pval_eqb x y && pvals_eqb a' b'
+  | _, _ => false
+  end.
+
+Definition csa_val_eqb (a b : csa_val) : bool :=
+  match a, b with
+  | CItem x, CItem y => pval_eqb x y
+  | CItems x, CItems y => pvals_eqb x y
+  | _, _ => false
+  end.
+
+Fixpoint csa_dict_eqb (a b : csa_dict) : bool :=
+  match a, b with
+  | [], [] => true
+  | (k, v) :: a', (k', v') :: b' => str_eqb k k' && csa_val_eqb v v' && csa_dict_eqb a' b'
+  | _, _ => false
+  end.
+
+Definition cobs_of (r : res csa_dict) : cobs := match r with Ok l => CDict l | Err e => CErr e end.
+
+Definition cobs_eqb (a b : cobs) : bool :=
+  match a, b with
+  | CDict x, CDict y => csa_dict_eqb x y
+  | CErr e, CErr e' => err_eqb e e'
+  | _, _ => false
+  end.
+
+Definition ccheck (c : ccase) : bool := cobs_eqb (cobs_of (csa_series_merge (c_in c))) (c_obs c).
+Definition cshow (c : ccase) := cobs_of (csa_series_merge (c_in c)).
